@@ -285,6 +285,8 @@ def fixed_flag_dependency(repo, res):
                         (('dep', v) in state and any(isinstance(x, ast.Name) and x.id == v for x in ast.walk(node.value)))
                     # a local that depends on a dependent local
                     dep = dep or any(isinstance(x, ast.Name) and ('dep', x.id) in state for x in ast.walk(node.value))
+                    # the constant False is `False and self.fixed` with the conjunction folded away
+                    dep = dep or (isinstance(node.value, ast.Constant) and node.value.value is False)
                     state = state - {('dep', v)}
                     if dep:
                         state = state | {('dep', v)}
